@@ -39,6 +39,8 @@ pub struct Fixture {
     n_ref: usize,
     /// ids of deltas that contain a copy instruction with encoded size 0 (= 0x10000 bytes)
     size0_copy_deltas: Vec<ObjectId>,
+    /// overlap fixtures: requested ref-deltas whose base the multi-pack-index maps to ANOTHER pack; .1 = the foreign offset is an entry boundary in the delta's own pack
+    foreign_base_deltas: Vec<(ObjectId, bool)>,
 }
 
 /// sliding-window file whose size grows strictly with the version (pack order == version order, distinct sizes)
@@ -101,7 +103,7 @@ fn finish_fixture(name: &'static str, dir: &Path, has_midx: bool) -> Fixture {
             }
         }
     }
-    Fixture { name, objects, stores, packs, bundles, oracle, alphabet, has_midx, all_ref: n_ofs == 0 && n_ref > 0, max_depth, n_ofs, n_ref, size0_copy_deltas }
+    Fixture { name, objects, stores, packs, bundles, oracle, alphabet, has_midx, all_ref: n_ofs == 0 && n_ref > 0, max_depth, n_ofs, n_ref, size0_copy_deltas, foreign_base_deltas: Vec::new() }
 }
 
 /// Pick the request alphabet from what git actually packed (most interesting first).
@@ -261,6 +263,62 @@ fn build_fixtures(run: &Run) -> Vec<Fixture> {
         }
         git(&dir, &["repack", "-adfq", "--window=10", "--depth=5"]);
         out.push(finish_fixture("huge-64k-copies", &dir, false));
+    }
+    // H: overlapping packs: the base of ref-deltas is stored in several packs, a multi-pack-index written by git maps it to
+    //    exactly one of them (each pack preferred once): ref-delta bases must still be taken from the delta's own pack
+    for (name, preferred) in [("overlap-midx-prefA", 0usize), ("overlap-midx-prefB", 1), ("overlap-midx-prefC", 2)] {
+        let dir = vkit::scratch::Dir::new("c08-overlap").keep();
+        vkit::git::init(&dir);
+        let base = vkit::enumerate::lcg_bytes(900, 0x0b5e);
+        let derive = |n: usize| {
+            let mut d = base.clone();
+            for (i, b) in d[100 * n..100 * n + 30].iter_mut().enumerate() {
+                *b = (n as u8).wrapping_mul(29).wrapping_add(i as u8);
+            }
+            d.truncate(890 - 10 * n);
+            d
+        };
+        let blob = |content: &[u8]| String::from_utf8_lossy(&vkit::git::git_in(&dir, &["hash-object", "-w", "--stdin"], content)).trim().to_string();
+        let base_id = blob(&base);
+        let d: Vec<String> = (1..=5).map(|n| blob(&derive(n))).collect();
+        let filler_b = blob(&vkit::enumerate::lcg_bytes(900, 0xf111));
+        let filler_c = blob(&vkit::enumerate::lcg_bytes(900, 0xf222));
+        let mut pack_names = Vec::new();
+        for (ids, ofs) in [
+            (vec![&base_id, &d[0], &d[1]], false),             // A: base first (offset 12), ref-deltas
+            (vec![&filler_b, &base_id, &d[2], &d[3]], false),  // B: a same-sized blob at offset 12, base behind it, ref-deltas
+            (vec![&filler_c, &base_id, &d[4]], true),          // C: ofs-delta
+        ] {
+            let list: String = ids.iter().map(|i| format!("{i}\n")).collect();
+            let mut args = vec!["pack-objects", "-q", "--window=10", "--depth=5"];
+            if ofs {
+                args.push("--delta-base-offset");
+            }
+            args.push(".git/objects/pack/pack");
+            let h = String::from_utf8_lossy(&vkit::git::git_in(&dir, &args, list.as_bytes())).trim().to_string();
+            pack_names.push(format!("pack-{h}.idx"));
+        }
+        git(&dir, &["prune-packed", "-q"]);
+        git(&dir, &["multi-pack-index", "write", &format!("--preferred-pack={}", pack_names[preferred])]);
+        let mut f = finish_fixture(name, &dir, true);
+        let (names, map) = fx::parse_midx(&dir.join(".git/objects/pack/multi-pack-index"));
+        for r in f.alphabet.iter() {
+            for (pi, p) in f.packs.iter().enumerate() {
+                let Some(e) = p.entries.iter().find(|e| e.oid == r.oid && e.raw_type == 7) else { continue };
+                let Some(b) = e.base else { continue };
+                let my_name = p.idx.file_name().map(|n| n.to_string_lossy().into_owned()).unwrap_or_default();
+                let my_midx_id = names.iter().position(|n| n == &my_name).unwrap_or_else(|| vkit::machinery!("pack {my_name} not in midx {names:?}"));
+                // is this copy of the delta the one the midx serves, and does the midx map its base elsewhere?
+                let served_here = map.get(&r.oid).map(|m| m.0 as usize == my_midx_id).unwrap_or(false);
+                if let Some((bp, bo)) = map.get(&b) {
+                    if served_here && *bp as usize != my_midx_id {
+                        let boundary = f.packs[pi].entries.iter().any(|e| e.offset == *bo);
+                        f.foreign_base_deltas.push((r.oid, boundary));
+                    }
+                }
+            }
+        }
+        out.push(f);
     }
     // F: twin packs with identical layout (same delta offsets in different packs -> cache keys must include the pack id)
     {
@@ -762,7 +820,7 @@ pub fn run(run: &'static Run) {
     let k_long = 6usize;
     let max_len = run.pick(3usize, 4);
     run.rule(format!(
-        "fixtures: 7 git-built repositories (ofs/ref deltas, --depth 1/2/3/4/5, --window 0/2/10, three packs + multi-pack-index, twin packs with equal delta offsets, three ~200 KiB incompressible blobs differing by small insertions whose deltas hold copy instructions of encoded size 0 = 0x10000 bytes); \
+        "fixtures: 10 git-built repositories (3 x overlapping packs A=[base, 2 ref-deltas] B=[filler, base, 2 ref-deltas] C=[filler, base, ofs-delta] under a git-written multi-pack-index preferring A, B or C, read with and without it; ofs/ref deltas, --depth 1/2/3/4/5, --window 0/2/10, three packs + multi-pack-index, twin packs with equal delta offsets, three ~200 KiB incompressible blobs differing by small insertions whose deltas hold copy instructions of encoded size 0 = 0x10000 bytes); \
          request alphabet per fixture = first {k} of [chain tip, chain middle, chain base, sibling delta sharing a delta ancestor, deltas in other packs, delta of the ~67 KB blob, tree delta, tip's parent, commit] (see `alphabets`); \
          histories = ALL request sequences with repetition of length 1..={max_len} (sub `reads`, full cache matrix) and of length {} over the first {k_long} objects (sub `reads-long`, reduced matrix: StaticLinkedList<2> x all limits, MemoryCappedHashmap(s0+s1), odb: those two x object cache {{unset, w0+w1}}), each on one fresh cache and one reused output buffer; \
          caches: Never, StaticLinkedList<1|2|64> x mem_limit {{0,1,s0-1,s0,s0+s1-1,s0+s1,sum}} (s0<=s1 smallest deltified alphabet objects), lru::MemoryCappedHashmap caps {{1,s0-1,s0,s0+s1,sum,64MiB}}, \
@@ -796,6 +854,14 @@ pub fn run(run: &'static Run) {
     run.require("offset deltas and reference deltas both occur", fxs.iter().any(|f| f.n_ofs > 0) && fxs.iter().any(|f| f.all_ref));
     run.require("every fixture has >= 4 request objects incl. a delta", fxs.iter().all(|f| f.alphabet.len() >= 4 && f.alphabet.iter().take(k).any(|r| r.delta)));
     run.require("multi fixture has 3 packs", fxs.iter().any(|f| f.has_midx && f.packs.len() == 3));
+    let kq = k_long.min(k);
+    let foreign: Vec<usize> = fxs.iter().map(|f| f.foreign_base_deltas.iter().filter(|(id, _)| f.alphabet.iter().take(kq).any(|r| &r.oid == id)).count()).collect();
+    run.cov("requested_ref_deltas_whose_base_the_midx_maps_to_another_pack", foreign.iter().sum::<usize>());
+    run.require(
+        "overlap fixtures: >= 2 fixtures request a ref-delta whose base the multi-pack-index maps to another pack, one of them at an entry boundary of the delta's pack",
+        foreign.iter().filter(|n| **n > 0).count() >= 2
+            && fxs.iter().any(|f| f.foreign_base_deltas.iter().any(|(id, boundary)| *boundary && f.alphabet.iter().take(kq).any(|r| &r.oid == id))),
+    );
     run.require(
         "a requested delta contains a copy instruction of encoded size 0 (= 0x10000 bytes)",
         fxs.iter().any(|f| f.alphabet.iter().take(k_long.min(k)).any(|r| r.delta && f.size0_copy_deltas.contains(&r.oid))),
@@ -828,11 +894,14 @@ pub fn run(run: &'static Run) {
         }
         configs
     };
+    let quick = run.quick();
     let gen = |reduced: bool, kmax: usize, lens: std::ops::RangeInclusive<usize>, emit: &mut dyn FnMut(Case)| {
         for len in lens {
             for f in fxs.iter() {
                 let kk = kmax.min(f.alphabet.len());
                 let alpha: Vec<u8> = (0..kk as u8).collect();
+                // quick: two of the three overlap fixtures run on the reduced cache matrix only (the lookup under test does not depend on caches)
+                let reduced = reduced || (quick && (f.name == "overlap-midx-prefB" || f.name == "overlap-midx-prefC"));
                 for (access, pc, oc) in configs(f, kk, reduced) {
                     vkit::enumerate::seqs(&alpha, len, len, |s| {
                         emit(Case { fixture: f.name.into(), access: access.clone(), pack_cache: pc.clone(), obj_cache: oc.clone(), requests: s.to_vec() })
